@@ -16,6 +16,30 @@ once at class level (of any class of the program) or module level, the
 identity is whatever evaluates to `threading.get_ident()` (locals, resolved
 helpers, parameters all callers bind to it).
 
+State kept in helper objects (a guard class / dataclass / context manager):
+* the record may be read and written by getattr / setattr with a name that is
+  not a literal: the name is followed to the string it stands for (locals,
+  module constants, parameters through every call site, `self.<x>` set once by
+  the constructor of its class - through every place that constructs the
+  class - a dataclass field, a class-body constant);
+* a lock that belongs to an object (`self._lock = threading.Lock()` in the
+  constructor, a dataclass `field(default_factory=threading.Lock)`, a lock
+  handed to the constructor) excludes other threads only if the *object*
+  exists once: every receiver through which the method holding the critical
+  section is called (calls through the caller's own `self` stand for the
+  caller's receivers) must be an object made by a constructor call in a class
+  body or at module level and bound to a name nothing rebinds.  An object made
+  in a method (`self.guard = Guard(...)`, a local, `Guard(...).claim()`, a
+  lazily filled class attribute) has a private lock per constructor call: the
+  store is then not under a lock (R1), and the message names the place that
+  makes the object;
+* `with <cm>():` on a @contextmanager generator is a critical section on the
+  lock the generator holds at its `yield`; `with <object>:` on an object whose
+  class has __enter__/__exit__ that acquire / release a lock is one on that
+  lock (with the same once-only condition for the object);
+* method calls on an object kept in a class attribute or a module global
+  (`Owner.guard.claim(Owner)`) are resolved to the methods of its class.
+
 What the interpretation follows besides direct tests:
 * locals: a local bound once from the record is a snapshot (current inside the
   lock region that bound it, "a value the record held earlier" elsewhere); a
@@ -135,6 +159,10 @@ def _qual(m, e: ast.AST, fi=None) -> str:
     return d
 
 
+def ast_decorators(k) -> list:
+    return [ast.unparse(d) for d in k.node.decorator_list]
+
+
 def _stmt_of(x: ast.AST):
     while x is not None and not isinstance(x, ast.stmt):
         x = getattr(x, '_parent', None)
@@ -172,6 +200,14 @@ class Analysis:
         for mm in self.prog.src_modules():
             for fi in mm.functions.values():
                 self.fn_of_node.setdefault(id(fi.node), fi)
+        self._holders = {}
+        self._names = {}
+        self._ctor_sites = {}
+        self._resolved = {}
+        self._callers = {}
+        self._locks = {}
+        self.ambiguous = []       # (function, expression text, values): an attribute name that may or may not be the record
+        self.access_ids = set()
         self.accesses = self._find_accesses()
         self.record_fns = {}
         for mm, n, kind, fi in self.accesses:
@@ -187,7 +223,6 @@ class Analysis:
         self._active = set()
         self._collected = set()
         self._cfg = {}
-        self._locks = {}
         self.store_obs = {}       # (file, qualname, line, text) -> dict
         self.lock_keys = {}       # lock key -> description (locks that guard a store)
         self.refusals = []        # (fi, line) raise nodes taken only when another thread owns
@@ -202,15 +237,18 @@ class Analysis:
                 if isinstance(n, ast.Attribute) and n.attr == RECORD:
                     kind = 'store' if isinstance(n.ctx, ast.Store) else 'del' if isinstance(n.ctx, ast.Del) else 'load'
                 elif isinstance(n, ast.Call) and isinstance(n.func, ast.Name) and len(n.args) >= 2 \
-                        and n.func.id in ('setattr', 'delattr', 'getattr', 'hasattr') \
-                        and isinstance(n.args[1], ast.Constant) and n.args[1].value == RECORD:
-                    kind = {'setattr': 'store', 'delattr': 'del'}.get(n.func.id, 'load')
+                        and n.func.id in ('setattr', 'delattr', 'getattr', 'hasattr'):
+                    fn = enclosing_function(n)
+                    fi = self.fn_of_node.get(id(fn)) if fn is not None else None
+                    if self.names_record(fi if fi is not None else self._holder(mm), n.args[1]):
+                        kind = {'setattr': 'store', 'delattr': 'del'}.get(n.func.id, 'load')
                 if kind is None:
                     continue
                 fn = enclosing_function(n)
                 fi = self.fn_of_node.get(id(fn)) if fn is not None else None
                 if fn is not None and fi is None:
                     fi = FunctionInfo(fn.name, fn, mm, None)
+                self.access_ids.add(id(n))
                 out.append((mm, n, kind, fi))
         return out
 
@@ -298,7 +336,7 @@ class Analysis:
         idx = params.index(name)
         implicit = 1 if fi.cls is not None and not any('staticmethod' in d for d in fi.decorators()) else 0
         out = []
-        for caller, c in callers_of(self.prog, fi):
+        for caller, c in self.callers(fi):
             off = implicit if isinstance(c.func, ast.Attribute) or (isinstance(c.func, ast.Name) and fi.name == '__init__') else 0
             pos = idx - off
             if 0 <= pos < len(c.args) and not any(isinstance(a, ast.Starred) for a in c.args[:pos + 1]):
@@ -315,9 +353,397 @@ class Analysis:
         if isinstance(e, ast.Attribute) and e.attr == RECORD and isinstance(e.ctx, ast.Load):
             return True
         if isinstance(e, ast.Call) and isinstance(e.func, ast.Name) and e.func.id == 'getattr' and len(e.args) >= 2 \
-                and isinstance(e.args[1], ast.Constant) and e.args[1].value == RECORD:
+                and self.names_record(fi, e.args[1]):
             return True
         return False
+
+
+    # ---- names given as strings, objects that carry state -------------------------------------------
+    def _holder(self, mm):
+        """a stand-in function for code at module / class level of mm"""
+        h = self._holders.get(mm.relpath)
+        if h is None:
+            h = self._holders[mm.relpath] = FunctionInfo('<module>', ast.parse('def f(): pass').body[0], mm, None)
+        return h
+
+    def _fi_at(self, mm, n):
+        fn = enclosing_function(n)
+        fi = self.fn_of_node.get(id(fn)) if fn is not None else None
+        return fi if fi is not None else self._holder(mm)
+
+    def ctor_sites(self, G):
+        """[(function the call stands in (a stand-in at class / module level), call)] for every call that constructs G"""
+        if id(G) not in self._ctor_sites:
+            out = []
+            for mm in self.prog.src_modules():
+                for n in ast.walk(mm.tree):
+                    if isinstance(n, ast.Call) and isinstance(n.func, (ast.Name, ast.Attribute)) \
+                            and (dotted_name(n.func) or '').split('.')[-1] in self._class_names(G, mm) \
+                            and self.prog.resolve_class_expr(mm, n.func) is G:
+                        out.append((self._fi_at(mm, n), n))
+            self._ctor_sites[id(G)] = out
+        return self._ctor_sites[id(G)]
+
+    @staticmethod
+    def _class_names(G, mm):
+        names = {G.name.split('.')[-1]}
+        for local, tgt in mm.imports.items():
+            if tgt.split('.')[-1] == G.name.split('.')[-1]:
+                names.add(local)
+        return names
+
+    def _ctor_arg(self, G, name, fi_site, c):
+        """(function, expression) a construction site of G binds the constructor parameter / dataclass field `name`
+        to; (None, None) when it cannot be told"""
+        if any(isinstance(a, ast.Starred) for a in c.args) or any(kw.arg is None for kw in c.keywords):
+            return None, None
+        kw = next((k.value for k in c.keywords if k.arg == name), None)
+        if kw is not None:
+            return fi_site, kw
+        ini = G.find_method('__init__')
+        if ini is not None:
+            params = ini.params
+            if name not in params:
+                return None, None
+            pos = params.index(name) - 1
+            if 0 <= pos < len(c.args):
+                return fi_site, c.args[pos]
+            d = self._default_of(ini, name)
+            return (ini, d) if d is not None else (None, None)
+        flds = list(G.all_fields())
+        if name not in flds:
+            return None, None
+        pos = flds.index(name)
+        if pos < len(c.args):
+            return fi_site, c.args[pos]
+        for k in G.mro():
+            v = k.class_assignments().get(name)
+            if v is not None:
+                if isinstance(v, ast.Call) and (dotted_name(v.func) or '').split('.')[-1] == 'field':
+                    d = next((x.value for x in v.keywords if x.arg == 'default'), None)
+                    return (self._holder(k.module), d) if d is not None else (None, None)
+                return self._holder(k.module), v
+        return None, None
+
+    def _self_stores(self, G, attr):
+        """[(method, statement, value | None)] for every `self.<attr> = value` (or other binding of it) in the methods
+        of G and of the classes it inherits from"""
+        out = []
+        for k in G.mro():
+            for meth in k.methods.values():
+                if not meth.params[:1]:
+                    continue
+                me = meth.params[0]
+                for n in walk_no_nested(meth.node):
+                    if isinstance(n, ast.Attribute) and n.attr == attr and isinstance(n.ctx, (ast.Store, ast.Del)) \
+                            and isinstance(n.value, ast.Name) and n.value.id == me:
+                        st = _stmt_of(n)
+                        v = None
+                        if isinstance(st, ast.Assign) and len(st.targets) == 1 and st.targets[0] is n:
+                            v = st.value
+                        elif isinstance(st, ast.AnnAssign) and st.target is n:
+                            v = st.value
+                        out.append((meth, st, v))
+        return out
+
+    def str_values(self, fi, e, depth=0):
+        """the set of string constants e evaluates to, None when that cannot be told.  Followed: locals bound once,
+        module constants, parameters through every resolved call site, `self.<x>` set once by the constructor of its
+        class (through every place that constructs the class) or given in the class body"""
+        if e is None or depth > 6:
+            return None
+        if isinstance(e, ast.Constant):
+            return {e.value} if isinstance(e.value, str) else None
+        if isinstance(e, ast.Name):
+            a = fi.node.args
+            if e.id in [x.arg for x in a.posonlyargs + a.args + a.kwonlyargs]:
+                if local_defs(fi.node, e.id):
+                    return None
+                out = set()
+                if fi.cls is not None and fi.name == '__init__':
+                    sites = [self._ctor_arg(fi.cls, e.id, w, c) for w, c in self.ctor_sites(fi.cls)]
+                else:
+                    sites = [(w, arg) for w, _c, arg, _caller in self.param_args(fi, e.id)]
+                if not sites:
+                    return None
+                for w, arg in sites:
+                    v = self.str_values(w, arg, depth + 1) if w is not None else None
+                    if v is None:
+                        return None
+                    out |= v
+                return out
+            ds = local_defs(fi.node, e.id)
+            if ds:
+                if len(ds) == 1 and isinstance(ds[0], (ast.Assign, ast.AnnAssign)) and ds[0].value is not None \
+                        and (isinstance(ds[0], ast.AnnAssign) or (len(ds[0].targets) == 1 and isinstance(ds[0].targets[0], ast.Name))):
+                    return self.str_values(fi, ds[0].value, depth + 1)
+                return None
+            r = self.prog.resolve_name(fi.module, e.id)
+            if isinstance(r, tuple) and r[0] == 'const':
+                return self.str_values(self._holder(r[1]), r[1].constants[r[2]], depth + 1)
+            return None
+        if isinstance(e, ast.Attribute):
+            G = None
+            if isinstance(e.value, ast.Name) and fi.cls is not None and fi.params[:1] == [e.value.id]:
+                G = fi.cls
+            elif isinstance(e.value, (ast.Name, ast.Attribute)):
+                G = self.prog.resolve_class_expr(fi.module, e.value)
+                if G is None:
+                    io = self.instance_of(fi, e.value, depth + 1)
+                    G = io[3] if io is not None else None
+            if G is None:
+                return None
+            stores = self._self_stores(G, e.attr)
+            if not stores:
+                for k in G.mro():
+                    ca = k.class_assignments()
+                    if e.attr in ca:
+                        v = ca[e.attr]
+                        if v is not None and not (isinstance(v, ast.Call) and (dotted_name(v.func) or '').split('.')[-1] == 'field') \
+                                and not any('dataclass' in d for d in ast_decorators(k)):
+                            return self.str_values(self._holder(k.module), v, depth + 1)
+                        break
+                # a dataclass field: what the construction sites pass
+                sites = self.ctor_sites(G)
+                if not sites or e.attr not in G.all_fields() or G.find_method('__init__') is not None:
+                    return None
+                out = set()
+                for w, c in sites:
+                    w2, arg = self._ctor_arg(G, e.attr, w, c)
+                    v = self.str_values(w2, arg, depth + 1) if w2 is not None else None
+                    if v is None:
+                        return None
+                    out |= v
+                return out
+            if len(stores) == 1 and stores[0][0].name == '__init__' and stores[0][2] is not None:
+                return self.str_values(stores[0][0], stores[0][2], depth + 1)
+            return None
+        return None
+
+    def names_record(self, fi, e) -> bool:
+        """the attribute name given by expression e (second argument of getattr / setattr / ...) is the record's"""
+        if isinstance(e, ast.Constant):
+            return e.value == RECORD
+        k = id(e)
+        if k not in self._names:
+            self._names[k] = False
+            vals = self.str_values(fi, e)
+            self._names[k] = bool(vals) and RECORD in vals
+            if vals and RECORD in vals and len(vals) > 1:
+                self.ambiguous.append((fi, norm(e), sorted(vals), getattr(e, 'lineno', 0)))
+        return self._names[k]
+
+    def instance_of(self, fi, e, depth=0):
+        """which object e denotes: ('once', key, description, class) for an object made by a constructor call that is
+        evaluated exactly once - in a class body or at module level - and bound to a name nothing rebinds;
+        ('many', reason, None, class) for one made at run time (for every instance, on every call);
+        None when it cannot be told"""
+        if depth > 4:
+            return None
+        m = fi.module
+        if isinstance(e, ast.Call):
+            G = self.prog.resolve_class_expr(m, e.func)
+            if G is not None:
+                return 'many', f'`{norm(e)[:70]}` makes a new {G.name} each time it is evaluated', None, G
+            return None
+        if isinstance(e, ast.Name):
+            a = fi.node.args
+            if e.id in [x.arg for x in a.posonlyargs + a.args + a.kwonlyargs]:
+                return None
+            ds = local_defs(fi.node, e.id)
+            if ds:
+                if len(ds) == 1 and isinstance(ds[0], (ast.Assign, ast.AnnAssign)) and ds[0].value is not None \
+                        and (isinstance(ds[0], ast.AnnAssign) or (len(ds[0].targets) == 1 and isinstance(ds[0].targets[0], ast.Name))):
+                    return self.instance_of(fi, ds[0].value, depth + 1)
+                return None
+            r = self.prog.resolve_name(m, e.id)
+            if isinstance(r, tuple) and r[0] == 'const':
+                v = r[1].constants[r[2]]
+                G = self.prog.resolve_class_expr(r[1], v.func) if isinstance(v, ast.Call) else None
+                if G is not None:
+                    why = self._rebound(r[2], r[1])
+                    if why:
+                        return 'many', f'the module global {r[2]} is not bound once: {why}', None, G
+                    return 'once', ('modobj', r[1].relpath, r[2]), \
+                        f'{r[2]} = {norm(v)[:70]}, made once when {r[1].relpath} is imported', G
+            return None
+        if isinstance(e, ast.Attribute):
+            ref, _how, org = self.class_ref_deep(fi, e.value)
+            C = None
+            if ref in ('cls', 'self', 'type'):
+                C = org.cls
+            elif ref in ('class',):
+                C = self.cls
+            else:
+                b = e.value
+                if isinstance(b, ast.Call) and isinstance(b.func, ast.Name) and b.func.id == 'type' and len(b.args) == 1:
+                    b = b.args[0]
+                if isinstance(b, ast.Attribute) and b.attr == '__class__':
+                    b = b.value
+                if isinstance(b, ast.Name) and b.id in ('self', 'cls') and fi.cls is not None and fi.params[:1] == [b.id]:
+                    C = fi.cls
+                elif isinstance(b, (ast.Name, ast.Attribute)):
+                    C = self.prog.resolve_class_expr(m, b)
+            if C is None:
+                return None
+            stores = self._self_stores(C, e.attr)
+            for k in C.mro():
+                ca = k.class_assignments()
+                if e.attr in ca and ca[e.attr] is not None:
+                    v = ca[e.attr]
+                    G = self.prog.resolve_class_expr(k.module, v.func) if isinstance(v, ast.Call) else None
+                    if G is None:
+                        break
+                    why = self._rebound(e.attr, owner=k)
+                    if why:
+                        return 'many', f'{k.name}.{e.attr} is not bound once: {why}', None, G
+                    return 'once', ('clsobj', k.name, e.attr), \
+                        f'{k.name}.{e.attr} = {norm(v)[:70]}, made once when the class is defined', G
+            for meth, st, v in stores:
+                G = self.prog.resolve_class_expr(meth.module, v.func) if isinstance(v, ast.Call) else None
+                if G is not None:
+                    return 'many', (f'`{norm(st)[:80]}` at {meth.module.relpath}:{st.lineno} ({meth.qualname}) makes a new '
+                                    f'{G.name} for every {meth.cls.name if meth.cls is not None else "instance"}'), None, G
+            # bound at run time through the class (`Owner.guard = Guard(...)` in a method: lazily, or again and again)
+            for mm in self.prog.src_modules():
+                for n in ast.walk(mm.tree):
+                    if isinstance(n, ast.Attribute) and n.attr == e.attr and isinstance(n.ctx, ast.Store) \
+                            and enclosing_function(n) is not None:
+                        st = _stmt_of(n)
+                        v = st.value if isinstance(st, (ast.Assign, ast.AnnAssign)) else None
+                        w = self._fi_at(mm, n)
+                        G = self.prog.resolve_class_expr(mm, v.func) if isinstance(v, ast.Call) else None
+                        if G is not None and self._related_class(w, n.value, C) is not False:
+                            return 'many', (f'`{norm(st)[:80]}` at {mm.relpath}:{st.lineno} ({w.qualname}) makes the {G.name} at '
+                                            'run time, not once when the class is defined: two first constructor calls can '
+                                            'each make (and lock) their own'), None, G
+            return None
+        return None
+
+    def resolve(self, fi, c):
+        """resolve_call, plus calls of methods of an object kept in a class attribute / module global
+        (`Owner.guard.claim(...)`)"""
+        k = id(c)
+        if k in self._resolved:
+            return self._resolved[k]
+        r = resolve_call(self.prog, fi, c)
+        self._resolved[k] = r
+        if r is None and isinstance(c.func, ast.Attribute) and not isinstance(c.func.value, ast.Constant):
+            io = self.instance_of(fi, c.func.value)
+            if io is not None and io[3] is not None:
+                r = self._resolved[k] = io[3].find_method(c.func.attr)
+        return r
+
+    def callers(self, target):
+        """callers_of, plus the call sites only `resolve` understands"""
+        k = (target.file, target.qualname)
+        if k not in self._callers:
+            out = list(callers_of(self.prog, target))
+            seen = {id(c) for _f, c in out}
+            for f in self.prog.all_functions():
+                for c in calls_in(f.node):
+                    if id(c) not in seen and isinstance(c.func, ast.Attribute) and c.func.attr == target.name \
+                            and enclosing_function(c) is f.node and self.resolve(f, c) == target:
+                        out.append((f, c))
+                        seen.add(id(c))
+            self._callers[k] = out
+        return self._callers[k]
+
+    def receivers_of(self, fi, seen=None):
+        """[(caller, call, instance_of the receiver)] for every call of the method fi; a call through the caller's own
+        `self` stands for the caller's receivers; the constructor's receiver is the object being made"""
+        seen = set() if seen is None else seen
+        seen.add((fi.file, fi.qualname))
+        if fi.name in ('__init__', '__post_init__', '__new__'):
+            return [(fi, None, ('many', f'{fi.qualname} runs on the object under construction: every constructor call '
+                                        'has its own', None, fi.cls))]
+        out = []
+        for caller, c in self.callers(fi):
+            if not isinstance(c.func, ast.Attribute):
+                out.append((caller, c, None))
+                continue
+            b = c.func.value
+            if isinstance(b, ast.Name) and caller.cls is not None and caller.params[:1] == [b.id] \
+                    and not any('classmethod' in d or 'staticmethod' in d for d in caller.decorators()):
+                if (caller.file, caller.qualname) not in seen:
+                    out += self.receivers_of(caller, seen)
+                continue
+            out.append((caller, c, self.instance_of(caller, b)))
+        return out
+
+    def _instance_lock(self, fi, e, G, objs=None):
+        """e = `<object>.<attr>` where <attr> is not bound in a class body: the lock an object of class G carries.  It
+        excludes other threads only if it is made once per object (in the constructor, never rebound) and the object
+        itself exists once: (key, description) / (None, reason) / None when <attr> is not such a lock"""
+        attr = e.attr
+        v = None
+        stores = self._self_stores(G, attr)
+        if stores:
+            made = [(meth, st, val) for meth, st, val in stores if val is not None and self._is_lock_ctor(meth.module, val)]
+            if not made and len(stores) == 1 and stores[0][0].name == '__init__' and isinstance(stores[0][2], ast.Name) \
+                    and stores[0][2].id in stores[0][0].params and not local_defs(stores[0][0].node, stores[0][2].id):
+                # the lock is handed to the constructor: what the construction sites pass
+                sites = [self._ctor_arg(G, stores[0][2].id, w, c) for w, c in self.ctor_sites(G)]
+                if sites and all(w is not None and self._is_lock_ctor(w.module, arg) for w, arg in sites):
+                    made = [(stores[0][0], stores[0][1], sites[0][1])]   # made together with the object
+                elif sites and all(w is not None for w, _a in sites):
+                    res = {self.lock_of(w, arg, 1) for w, arg in sites}
+                    if len(res) == 1:
+                        return next(iter(res))
+                    return None, f'`{norm(e)}` is not one fixed lock: the places that construct {G.name} pass different ones'
+                else:
+                    return None, f'?cannot tell which lock the places that construct {G.name} pass for `{norm(e)}`'
+            if not made:
+                return None
+            if len(stores) > 1 or made[0][0].name not in ('__init__', '__post_init__'):
+                meth, st, _ = next((x for x in stores if x[0].name not in ('__init__', '__post_init__')), stores[-1])
+                return None, (f'the lock `{norm(e)}` is bound again at run time ({meth.module.relpath}:{st.lineno} in '
+                              f'{meth.qualname}): two threads can hold different lock objects')
+            v = made[0][2]
+            where = f'{made[0][0].qualname}'
+        else:
+            for k in G.mro():
+                cv = k.class_assignments().get(attr)
+                if isinstance(cv, ast.Call) and (dotted_name(cv.func) or '').split('.')[-1] == 'field':
+                    fac = next((x.value for x in cv.keywords if x.arg == 'default_factory'), None)
+                    if fac is not None and _qual(k.module, fac) in LOCK_CTORS:
+                        v, where = cv, f'dataclass {k.name}'
+                    break
+            if v is None:
+                return None
+        why = self._rebound(attr, owner=G)
+        if why and stores:
+            # the constructor's own store is the creation, anything else rebinds
+            own = {(meth.module.relpath, st.lineno) for meth, st, _ in stores}
+            if not any(why.startswith(f'{p}:{ln} ') for p, ln in own):
+                return None, f'the lock {G.name}.{attr} is not created once per object: {why}'
+        elif why:
+            return None, f'the lock {G.name}.{attr} is not created once per object: {why}'
+        if objs is not None:
+            pass
+        elif isinstance(e.value, ast.Name) and fi.cls is not None and fi.params[:1] == [e.value.id]:
+            objs = self.receivers_of(fi)
+        else:
+            objs = [(fi, None, self.instance_of(fi, e.value))]
+        if not objs:
+            return None, f'?cannot tell which object\'s lock `{norm(e)}` is: no call of {fi.qualname} is resolved'
+        keys = set()
+        for caller, c, io in objs:
+            if io is None:
+                at = f'{caller.module.relpath}:{c.lineno} ({caller.qualname})' if c is not None else caller.qualname
+                return None, f'?cannot tell which object\'s lock `{norm(e)}` is at {at}'
+            if io[0] == 'many':
+                recv = f'`{norm(c.func.value)}`, the receiver at {caller.module.relpath}:{c.lineno} ({caller.qualname})' \
+                    if c is not None and isinstance(c.func, ast.Attribute) else 'its object'
+                return None, (f'`{norm(e)}` ({G.name}.{attr} = {norm(v)[:50]}, made in {where}) is the private lock of '
+                              f'{recv}; {io[1]}: each of them has its own lock, so no two constructor calls ever contend for '
+                              'the same one and the lock excludes nobody')
+            keys.add((io[1], io[2]))
+        if len(keys) > 1:
+            return None, (f'`{norm(e)}` is the lock of different objects at different call sites '
+                          f'({"; ".join(sorted(d for _k, d in keys))}): they do not exclude each other')
+        (key, desc), = keys
+        return ('inst',) + tuple(key) + (attr,), f'{G.name}.{attr} = {norm(v)[:50]} (made in {where}) of the single object {desc}'
 
     # ---- the lock ------------------------------------------------------------
     def _is_lock_ctor(self, m, v) -> bool:
@@ -393,13 +819,69 @@ class Analysis:
         return self._locks[k]
 
     def _lock_of(self, fi, e, depth):
+        r = self._lock_of0(fi, e, depth)
+        if r[0] is None and isinstance(e, (ast.Name, ast.Attribute, ast.Call)) and depth <= 3:
+            cm = self._cm_object_lock(fi, e)
+            if cm is not None:
+                return cm
+        return r
+
+    def _cm_object_lock(self, fi, e):
+        """`with <object>:` where the class of the object has __enter__ / __exit__ that take and release a lock: the
+        lock they take (a class-level one, or the object's own - then the object must exist once)"""
+        if isinstance(e, ast.Name) and fi.cls is not None and fi.params[:1] == [e.id] and fi.name != '__init__':
+            G, objs = fi.cls, None
+        else:
+            io = self.instance_of(fi, e)
+            if io is None or io[3] is None:
+                return None
+            G, objs = io[3], [(fi, None, io)]
+        ent, ext = G.find_method('__enter__'), G.find_method('__exit__')
+        if ent is None or ext is None or not ent.params:
+            return None
+        acq = [c for c in calls_in(ent.node) if isinstance(c.func, ast.Attribute) and c.func.attr in ('acquire', '__enter__')]
+        rel = [c for c in calls_in(ext.node) if isinstance(c.func, ast.Attribute) and c.func.attr in ('release', '__exit__')]
+        if len(acq) != 1 or len(rel) != 1 or norm(acq[0].func.value) != norm(rel[0].func.value) \
+                or ent.params[0] != ext.params[0]:
+            return None
+        le = acq[0].func.value
+        k = self.lock_of(ent, le, 1) if not (isinstance(le, ast.Attribute) and self._self_stores(G, le.attr)) else (None, '')
+        if k[0] is not None:
+            return k
+        if isinstance(le, ast.Attribute) and isinstance(le.value, ast.Name) and le.value.id == ent.params[0]:
+            r = self._instance_lock(ent, le, G, objs=objs if objs is not None else self.receivers_of(fi))
+            if r is not None:
+                return r
+        return None
+
+    def _lock_of0(self, fi, e, depth):
         if depth > 3:
             return None, 'not resolved'
         m = fi.module
         if isinstance(e, ast.Call):
             if self._is_lock_ctor(m, e):
                 return None, f'`{norm(e)}` makes a new lock for every use: it excludes nobody'
-            callee = resolve_call(self.prog, fi, e)
+            callee = self.resolve(fi, e)
+            if callee is not None and any('contextmanager' in d for d in callee.decorators()):
+                # a generator-based context manager: the block runs where the callee yields; it is a critical section
+                # when every yield stands in one of the callee's own lock regions (all on the same lock)
+                ys = [y for y in walk_no_nested(callee.node) if isinstance(y, (ast.Yield, ast.YieldFrom))]
+                got = set()
+                for y in ys:
+                    sec = self.section_of(callee, _stmt_of(y))
+                    got.add((sec[1], sec[2]) if sec else None)
+                if ys and None not in got and len(got) == 1:
+                    return next(iter(got))
+                if ys and None in got:
+                    _, nl = self.sections(callee)
+                    why = next((d for _n, d in nl.values()), None)
+                    for y in ys:
+                        for a in ancestors(y):
+                            if isinstance(a, (ast.With, ast.AsyncWith)) and why is None:
+                                why = self.lock_of(callee, a.items[0].context_expr, depth + 1)[1]
+                    return None, (f'the context manager `{norm(e)}` ({callee.qualname}) yields while no lock created once at '
+                                  'class or module level is held' + (f': {why}' if why else ''))
+                return None, f'?cannot tell what the context manager `{norm(e)}` holds while its block runs'
             if callee is not None:
                 rets = [r for r in walk_no_nested(callee.node) if isinstance(r, ast.Return)]
                 res = {self.lock_of(callee, r.value, depth + 1) for r in rets if r.value is not None}
@@ -449,6 +931,9 @@ class Analysis:
                     ca = c.class_assignments()
                     if e.attr in ca:
                         v = ca[e.attr]
+                        if isinstance(v, ast.Call) and (dotted_name(v.func) or '').split('.')[-1] == 'field' \
+                                and any(x.arg == 'default_factory' for x in v.keywords):
+                            break   # a dataclass field made for every object: the lock of that object (below)
                         if v is not None and self._is_lock_ctor(c.module, v):
                             why = self._rebound(e.attr, owner=c)
                             if why:
@@ -456,6 +941,9 @@ class Analysis:
                             return ('cls', c.name, e.attr), f'class attribute {c.name}.{e.attr} = {norm(v)}'
                         return None, (f'class attribute {c.name}.{e.attr} = {norm(v) if v is not None else "<unset>"} is not a '
                                       'lock created once when the class is defined (two first constructors can each make their own)')
+                inst = self._instance_lock(fi, e, owner)
+                if inst is not None:
+                    return inst
                 return None, f'`{norm(e)}` is not a class-level lock'
             q = _qual(m, e)
             r = self.prog.resolve_dotted(q) if q else None
@@ -479,7 +967,7 @@ class Analysis:
                     k, d = self.lock_of(fi, it.context_expr)
                     if k is not None:
                         secs[id(n)] = (n, k, d)
-                    elif any(isinstance(x, ast.Attribute) and x.attr == RECORD for s in n.body for x in ast.walk(s)):
+                    elif any(id(x) in self.access_ids for s in n.body for x in ast.walk(s)):
                         nolock[id(n)] = (n, d)
             if isinstance(n, ast.Try) and n.finalbody:
                 rel = [c for s in n.finalbody for c in calls_in(s)
@@ -587,7 +1075,7 @@ class Analysis:
         if isinstance(e, ast.Call):
             if _qual(fi.module, e.func, fi) in IDENT_CALLS:
                 return 'M', None
-            callee = resolve_call(self.prog, fi, e)
+            callee = self.resolve(fi, e)
             if callee is not None and callee.name != '__init__':
                 rets = [r for r in walk_no_nested(callee.node) if isinstance(r, ast.Return)]
                 if rets and all(self.sym(callee, r.value, depth + 1)[0] == 'M' for r in rets):
@@ -832,7 +1320,7 @@ class Analysis:
         d = direct(fi.module, c)
         if d:
             return d
-        callee = resolve_call(self.prog, fi, c)
+        callee = self.resolve(fi, c)
         if callee is None:
             return None
         k = (callee.file, callee.qualname)
@@ -876,7 +1364,7 @@ class Analysis:
         if not isinstance(stmt, (ast.If, ast.While, ast.For, ast.With, ast.Try, ast.Match)):
             for c in calls_in(stmt):
                 if isinstance(c.func, ast.Name) and c.func.id in ('setattr', 'delattr') and len(c.args) >= 2 \
-                        and isinstance(c.args[1], ast.Constant) and c.args[1].value == RECORD:
+                        and self.names_record(fi, c.args[1]):
                     v = c.args[2] if c.func.id == 'setattr' and len(c.args) > 2 else None
                     out.append((self.class_ref(fi, c.args[0]), v, norm(c)[:60], c.args[0]))
         return out
@@ -947,7 +1435,7 @@ class Analysis:
                 if h is None:
                     continue
                 for c in calls_in(h):
-                    callee = resolve_call(self.prog, fi, c)
+                    callee = self.resolve(fi, c)
                     if callee is not None and self.relevant(callee) and not self.record_read(fi, c):
                         S_in = S if held else _stable(S)
                         S2 = self.analyse(callee, held, S_in, emit)
@@ -1145,6 +1633,11 @@ def run(ctx):
                                   'the owner record is not written by an attribute store or setattr, but its name is '
                                   'used as a string here: cannot follow this way of writing it')
 
+    for fi_a, txt, vals, ln in A.ambiguous:
+        ctx.undecided('C20-R1', fi_a, f'attribute name `{txt}` at line {ln}',
+                      f'the attribute accessed here is named by a value that can be any of {vals}: cannot tell whether this '
+                      'is an access of the owner record')
+
     # ---- run the interpretation: the constructor first (follows resolved callees), then every other writer ----
     S_exit = A.analyse(init, False, TOP, True)
     for mm, n, kind, fi in A.accesses:
@@ -1168,6 +1661,8 @@ def run(ctx):
             for a in ancestors(rec['stmt']):
                 if id(a) in nolock:
                     why_nolock = ' (' + nolock[id(a)][1] + ')'
+            if '(?' in why_nolock:
+                ctx.undecided('C20-R1', fi, f'store {text} under the lock', why_nolock.strip(' ()?'))
             ctx.ob('C20-R1', fi, f'store {text} under the lock', False,
                    'the owner record is written while no lock created once at class or module level is held' + why_nolock +
                    ': two first constructors can interleave between the test and the set', line=line)
@@ -1208,7 +1703,7 @@ def run(ctx):
         why = 'stored on the class that owns the record' + (how if ok_ref else '')
         through = f'`{norm(rec["recv"])}`{how}' if rec['recv'] is not None else f'`{text.rsplit(".", 1)[0]}`'
         if ref == 'cls':
-            sites = callers_of(prog, org)
+            sites = A.callers(org)
             bad = [c for _, c in sites if not (isinstance(c.func, ast.Attribute) and A.class_ref(_, c.func.value) == 'class')]
             ok_ref = bool(sites) and not bad and org.cls is cls
             why = ('`cls` is always the owning class: every call names it explicitly' if ok_ref else
